@@ -38,6 +38,7 @@ type statusShape struct {
 	Strategy  string `json:"strategy"`
 	StartFail []int  `json:"start_fail,omitempty"` // ERU_WORKLOAD_SEQ whose start fails
 	Fault     string `json:"fault,omitempty"`      // ckit address kind|nodeIndex|ord ("" none)
+	CancelAt  string `json:"cancel_at,omitempty"`  // "<intercepted step>|<k>": the CALLER's context is cancelled right after the k-th such step
 }
 
 type statusCase struct {
@@ -54,13 +55,19 @@ type statusCase struct {
 }
 
 type observer struct {
-	mu     sync.Mutex // serialises every store write of the deployment with the observations
-	on     bool
-	cl     *ckit.Cluster
-	app    string
-	entry  string
-	strip  func(string) string
-	obs    []obsJ
+	mu    sync.Mutex // serialises every store write of the deployment with the observations
+	on    bool
+	cl    *ckit.Cluster
+	app   string
+	entry string
+	strip func(string) string
+	obs   []obsJ
+	// caller cancellation
+	cancelAt  string
+	cancelOrd int
+	cancel    context.CancelFunc
+	seen      map[string]int
+	cancelled bool
 }
 
 func (o *observer) read(at string) obsJ {
@@ -103,6 +110,13 @@ func (o *observer) step(at string, f func()) {
 	f()
 	if !o.on {
 		return
+	}
+	if o.cancel != nil && at == o.cancelAt {
+		if o.seen[at] == o.cancelOrd {
+			o.cancel()
+			o.cancelled = true
+		}
+		o.seen[at]++
 	}
 	ob := o.read(at)
 	if n := len(o.obs); n == 0 || !sameObs(o.obs[n-1], ob) {
@@ -160,6 +174,7 @@ func runStatus(t *testing.T, sh statusShape, id, tag string) *statusCase {
 	o := &observer{cl: cl, app: "app", entry: "web", strip: strip}
 	cl.C.VerifSetStore(&obsStore{Store: cl.C.VerifStore(), o: o})
 	hub.onStart = func(string) { o.step("engineStart", func() {}) }
+	hub.onCreate = func(string) { o.step("engineCreate", func() {}) }
 	if sh.Prior > 0 {
 		msgs, err := deploy(cl, deployOpts("app", "web", pod, sh.Prior, "AUTO", cpumemReq(0.5, 1<<28, false), nil))
 		fatalIf(t, err, "prior deploy")
@@ -191,8 +206,17 @@ func runStatus(t *testing.T, sh statusShape, id, tag string) *statusCase {
 	o.obs = []obsJ{o.read("start")}
 	o.mu.Unlock()
 	count := sh.Count
+	ctx, cancel := context.WithCancel(cl.Ctx())
+	defer cancel()
+	if sh.CancelAt != "" {
+		parts := splitN(sh.CancelAt, "|", 2)
+		o.mu.Lock()
+		o.cancelAt, o.cancel, o.seen = parts[0], cancel, map[string]int{}
+		o.cancelOrd, _ = strconv.Atoi(parts[1])
+		o.mu.Unlock()
+	}
 	tr := cl.Traced(plan, func() {
-		msgs, err := deploy(cl, deployOpts("app", "web", pod, count, sh.Strategy, cpumemReq(0.5, 1<<28, false), nil))
+		msgs, err := deployCtx(ctx, cl, deployOpts("app", "web", pod, count, sh.Strategy, cpumemReq(0.5, 1<<28, false), nil))
 		if err != nil {
 			c.Errors = -1
 			return
@@ -225,13 +249,15 @@ func genStatusShape(r *hx.Rng) statusShape {
 	if sh.Strategy == "FILL" && sh.Count < sh.Prior {
 		sh.Count = sh.Prior + 1
 	}
-	switch r.Intn(6) {
+	switch r.Intn(8) {
 	case 0:
 		sh.StartFail = []int{r.Intn(sh.Count)}
 	case 1:
 		sh.Fault = fmt.Sprintf("%s|%d|0", hx.Pick(r, "storeAddWorkload", "engineCreate", "storeCreateProcessing", "pluginAlloc", "walLog:create-workload", "walLog:create-processing", "engineInspect"), r.Range(1, sh.Nodes))
 	case 2:
 		sh.StartFail = []int{0, sh.Count - 1}
+	case 3, 4:
+		sh.CancelAt = fmt.Sprintf("%s|%d", hx.Pick(r, "storeCreateProcessing", "storeAddWorkload", "engineCreate", "engineStart", "storeGetNode"), r.Intn(2))
 	}
 	return sh
 }
@@ -243,6 +269,11 @@ func genStatus(t *testing.T, out *hx.Out, budget int) {
 		{Nodes: 2, Count: 3, Prior: 2, Strategy: "AUTO", StartFail: []int{1}},
 		{Nodes: 1, Count: 2, Prior: 0, Strategy: "AUTO", Fault: "storeAddWorkload|1|0"},
 		{Nodes: 3, Count: 1, Prior: 0, Strategy: "EACH", Fault: "storeCreateProcessing|2|0"},
+		// the caller's context is cancelled while the deployment runs (mutant C13/3: markers must still go)
+		{Nodes: 2, Count: 3, Prior: 1, Strategy: "AUTO", CancelAt: "storeAddWorkload|0"},
+		{Nodes: 2, Count: 4, Prior: 0, Strategy: "AUTO", CancelAt: "storeCreateProcessing|1"},
+		{Nodes: 1, Count: 2, Prior: 1, Strategy: "AUTO", CancelAt: "engineCreate|0"},
+		{Nodes: 2, Count: 2, Prior: 0, Strategy: "AUTO", CancelAt: "engineStart|1"},
 	}
 	for len(shapes) < budget {
 		shapes = append(shapes, genStatusShape(r))
